@@ -358,27 +358,28 @@ def cases(tier, seed):
         for std in (['c++14', 'c++17'] if thorough else ['c++14']):
             cfg = Cfg(isa, std)
             main_std = std == 'c++14'
+            full = thorough and main_std
             # ---- programs through a map at offset d versus an owning tensor ----
-            for ty in ((INT, FLT, DBL, I64) if thorough else (INT, FLT, DBL)):
+            for ty in ((INT, FLT, DBL, I64) if full else ((INT, FLT, DBL) if main_std else (INT,))):
                 arith = ty.kind == 'int'
                 for shape in prog_shapes(isa, ty, thorough):
                     for d in range(4):
-                        reps = (2 if ty is INT else 1) if not thorough else (4 if ty is INT else 2)
+                        reps = (2 if ty is INT else 1) if not full else (3 if ty is INT else 1)
                         if not main_std: reps = 1
                         for rep in range(reps):
                             if not thorough and ty is not INT and (d + len(shape)) % 2: continue
                             prog = pick_program(rng, ty, shape, rng.randint(2, 4), arith)
                             out.append(map_prog_case(ty, shape, d, prog, cfg, ''))
             # ---- alias programs ----
-            for ty in ((INT, FLT) if not thorough else (INT, FLT, DBL)):
+            for ty in ((INT, FLT) if not full else (INT, FLT, DBL)):
                 arith = ty.kind == 'int'
                 V = vec_elems(isa, ty)
                 pairs = [((2, 6), (3, 4), 'reshape'), ((2, 6), (2, 2, 3), 'reshape'), ((3, 4), (12,), 'flatten'), ((1, 3, 1, 4), (3, 4), 'squeeze'),
                          ((2, V + 1), (V + 1, 2), 'tmap'), ((2, V + 1), (2 * V + 2,), 'flatten'), ((V + 1, 1, 2), (V + 1, 2), 'squeeze'),
                          ((2, 2, 3), (4, 3), 'tmap'), ((4, V), (2, 2 * V), 'reshape')]
-                if not thorough: pairs = sample(rng, pairs, 5 if ty is INT else 3)
+                if not full: pairs = sample(rng, pairs, 5 if ty is INT else 3)
                 for (ss, ts, how) in pairs:
-                    for rep in range(1 if not thorough else 3):
+                    for rep in range(1 if not full else 2):
                         la = rng.randint(1, 2); lr = rng.randint(1, 2)
                         pa = pick_program(rng, ty, ss, la, arith); pr = pick_program(rng, ty, ts, lr, arith)
                         out.append(alias_prog_case(ty, ss, ts, how, pa, pr, cfg))
@@ -403,19 +404,19 @@ def cases(tier, seed):
             shapes = [(5,), (3, 3), (2, 3), (2, 3, 4), (2, 3, 2, 3)]
             if thorough: shapes += [(3, 2), (3, 2, 2), (1, 4), (4, 1), (5, 7), (4, 3, 2), (2, 2, 2), (3, 2, 3, 2), (2, 1, 3, 2), (4, 4)]
             for shape in shapes:
-                for ty in ((INT, FLT, DBL) if thorough else (INT, DBL if len(shape) % 2 else FLT)):
+                for ty in ((INT, DBL) if full else ((INT, DBL if len(shape) % 2 else FLT) if main_std else (INT,))):
                     for what in ('tocolumnmajor', 'torowmajor', 'roundtrip-cr', 'roundtrip-rc'):
                         if not main_std and what.startswith('roundtrip'): continue
                         if not thorough and ty is not INT and what in ('torowmajor', 'roundtrip-rc'): continue
                         out.append(layout_case(ty, shape, cfg, what, 'own'))
-                        if ty is INT and (thorough or len(shape) == 3) and not what.endswith('rc'):
+                        if ty is INT and (full or len(shape) == 3) and not what.endswith('rc'):
                             out.append(layout_case(ty, shape, cfg, what, 'map'))
             # ---- constructors ----
             for ti, ty in enumerate((INT, FLT, DBL)):
                 V = vec_elems(isa, ty)
                 for si, shape in enumerate([(V + 1,), (2, 3), (2, 3, 2), (2, 2, 1, 3)]):
                     kinds = ['ptr', 'ptr-colmajor', 'array', 'initlist']
-                    if ty is INT or thorough: kinds += ['ptr-rowmajor', 'array-colmajor', 'map-ptr', 'map-const', 'initlist-assign']
+                    if ty is INT or full: kinds += ['ptr-rowmajor', 'array-colmajor', 'map-ptr', 'map-const', 'initlist-assign']
                     elif (si + ti) % 2: kinds = ['ptr-colmajor', 'initlist']
                     for k in kinds:
                         if k == 'initlist-assign' and len(shape) > 2 and not thorough: continue
@@ -425,7 +426,7 @@ def cases(tier, seed):
                 V = vec_elems(isa, ty)
                 for i, shape in enumerate([(3,), (V + 1,), (2, 3)]):
                     out.append(map_assign_map_case(ty, shape, i % 4, cfg))
-                for n in sorted({1, 2, 3, V, V + 1, 2 * V, 2 * V + 3}) if not thorough else range(1, 2 * V + 4):
+                for n in sorted({1, 2, 3, V, V + 1, 2 * V, 2 * V + 3}) if not full else sorted(set(range(1, V + 3)) | {2 * V - 1, 2 * V, 2 * V + 1, 2 * V + 3}):
                     out.append(reverse_case(ty, (n,), n % 4, cfg, 'map'))
                     out.append(reverse_case(ty, (n,), 0, cfg, 'own'))
                 out.append(reverse_case(ty, (2, V + 1), 1, cfg, 'map')); out.append(reverse_case(ty, (2, V + 1), 0, cfg, 'own'))
